@@ -18,8 +18,8 @@ OPAQUE = [r'^nano::vector_t$', r'^nano::matrix_t$', r'tensor_t<nano::tensor_vect
 MEMBERS = [(r'^valid\|nano::solver_state_t', 'nv_state_valid'), (r'^fx\|nano::solver_state_t', 'nv_state_fx'),
            (r'^gradient_test\|nano::solver_state_t', 'nv_state_gradient_test'),
            (r'^has_descent\|nano::solver_state_t', '@nondet'),
-           (r'^status\|nano::solver_state_t\|#0', 'nv_state_status'),
-           (r'^status\|nano::solver_state_t\|#1', 'nv_state_set_status'),
+           (r'^status\|nano::solver_state_t[ *]*\|#0', 'nv_state_status'),
+           (r'^status\|nano::solver_state_t[ *]*\|#1', 'nv_state_set_status'),
            (r'^update_calls\|nano::solver_state_t', 'nv_state_update_calls'),
            (r'^(info|warn|error)\|nano::logger_t', '@drop'),
            (r'^(fcalls|gcalls)\|nano::function_t', 'nv_fn_calls'),
